@@ -439,12 +439,22 @@ func expand(yylex yyLexer, x expr) (int, bool) {
 		return x.n, true
 	} else if v, set := yylex.(*lexer).env.Get(x.s); !set || v.Value == "" {
 		return 0, true
-	} else if n, err := strconv.ParseInt(v.Value, 0, 0); err != nil {
+	} else if n, err := strconv.ParseInt(v.Value, 0, 0); err != nil || !isConst(v.Value) {
 		yylex.Error(fmt.Sprintf("invalid number %q", v.Value))
 		return 0, false
 	} else {
 		return int(n), true
 	}
+}
+
+// isConst reports whether s is spelled like a decimal, octal or
+// hexadecimal constant. It excludes the other forms which are accepted
+// by strconv.ParseInt.
+func isConst(s string) bool {
+	if s != "" && (s[0] == '+' || s[0] == '-') {
+		s = s[1:]
+	}
+	return !strings.ContainsRune(s, '_') && !(len(s) > 1 && s[0] == '0' && strings.ContainsRune("bBoO", rune(s[1])))
 }
 
 func calculate(yylex yyLexer, l expr, op string, r expr) (x expr, ok bool) {
